@@ -20,8 +20,8 @@ def gen_dat(rng, ctx, pts3, cross, malformed=None):
     """-> (text of the .dat file, spec)"""
     dim = 2 if (cross and rng.random() < 0.5) else 3
     ncomp = rng.choice([0, 1, 2, 3, 5])
-    ngc = rng.choice([0, 0, 1, 2])
-    ngr = rng.choice([0, 1, 2, 3]) if ngc else rng.choice([0, 2])
+    ngc = rng.choice([0, 0, 1, 2, 3, 4])
+    ngr = rng.choice([0, 1, 2, 3, 5]) if ngc else rng.choice([0, 2])
     convert = dim == 3 and ctx.sph and rng.random() < 0.5
     sep = rng.choice([' ', ', ', '  ', '\t'])
     lines = []
@@ -140,7 +140,7 @@ def main(tier, seed, replay):
     core.build('asan')
     rng = random.Random(seed * 5701 + 17)
     V = core.Verdict(PID, tier, seed)
-    V.coverage['rule'] = ('the ASan+UBSan build of gwb-dat on generated .dat files (dim 2/3, 0-5 compositions, 0-2 grain compositions x 0-3 grains, convert spherical, space / comma+space / tab separated, comment lines of '
+    V.coverage['rule'] = ('the ASan+UBSan build of gwb-dat on generated .dat files (dim 2/3, 0-5 compositions, 0-4 grain compositions x 0-5 grains, convert spherical, space / comma+space / tab separated, comment lines of '
                           'every length incl. a lone "#", blank lines, one row with too few or too many columns in some files) x corpus and generated worlds; every printed column compared by string with the %g rendering of '
                           'the library value obtained through the monitor process for the same point and property list; non-trivial = rows at points inside a feature with >= 1 composition or grain column')
     nruns = 300 if tier == "quick" else 6000
